@@ -117,7 +117,12 @@ def text_variants(rng, text):
     doubled character, content after the root, control characters).  Which is which is decided by expat in run()."""
     decl = rng.choice(['<?xml version="1.0"?>', '<?xml version="1.0" encoding="UTF-8"?>', "<?xml version='1.0' encoding='utf-8' standalone='yes'?>"])
     ws = rng.choice(['\n', ' ', '\r\n', '\t', '\n\n  '])
-    r = rng.randrange(17)
+    r = rng.randrange(19)
+    if r == 17:
+        # a str that declares an encoding: the declaration means nothing for a str (bytes and files hold it in that encoding)
+        return '<?xml version="1.0" encoding="%s"?>' % rng.choice(['UTF-16', 'ISO-8859-1', 'us-ascii', 'windows-1252', 'utf-8']) + text
+    if r == 18:
+        return '<?xml version="1.0" encoding="%s"?>' % rng.choice(['UTF-16', 'ISO-8859-1', 'windows-1252']) + text.replace('<mosID>', '<mosID>caf\u00e9 ', 1)
     if r == 14:
         return rng.choice(['<!DOCTYPE mos>', '<!DOCTYPE mos SYSTEM "mos.dtd">', '<!DOCTYPE mos PUBLIC "-//MOS//DTD" "mos.dtd">']) + text
     if r == 15:
